@@ -128,6 +128,7 @@ def showVObs (v : Vars) : String :=
       | .var nm val => "var/" ++ encCps nm ++ "/" ++ encCps val.css
       | .other t => "other/" ++ encCps t)),
     "reported=" ++ showList ((vReported v).map (fun e => encCps e.1 ++ "/" ++ encCps e.2)),
+    "reportedq=" ++ showList ((vReportedQ v).map (fun e => encCps e.1 ++ "/" ++ encCps e.2)),
     "serialized=" ++ showList ((vSerialized v).map (fun e => encCps e.1 ++ "/" ++ encCps e.2)),
     "text=" ++ encCps (vCssTextP SPrefs.default REnv.default 1 v)]
 
@@ -260,6 +261,12 @@ def step (st : St) (line : String) : St × String :=
     | none => bad st
   | ["css", n] => match decCps n with
     | some n => (st, encCps (toCSS n))
+    | none => bad st
+  | ["rq", n] => match decCps n with
+    | some n => (st, encCps (requote n))
+    | none => bad st
+  | ["gvq", n] => match decCps n with
+    | some n => (st, encCps (getPropertyValue st.d.seq (requote n) true))
     | none => bad st
   | ["norm", n] => match decCps n with
     | some n => (st, encCps (normalize n))
